@@ -52,7 +52,7 @@ fn run(prop: &str, tier: &str) -> i32 {
         eprintln!("fam-cw3 does not serve {prop}");
         return 2;
     }
-    rep.bounds = "every configuration is a closed system (finite proposals, capped clock, bounded edits/faults/funds) explored to fixpoint; state cap 8e6 and time cap per configuration reported if hit".into();
+    rep.bounds = "every configuration is a closed system (finite proposals, capped clock, bounded edits/faults/funds) explored to fixpoint; state cap 3e6 and time cap per configuration reported if hit".into();
     rep.assumptions = vec![
         "kernel: atomic transactions, in-order message dispatch, sub-call rollback (cross-validated against cw-multi-test by ./check kernel-diff)".into(),
         "small actor sets and weights; thresholds with at most 9 decimals".into(),
@@ -63,7 +63,7 @@ fn run(prop: &str, tier: &str) -> i32 {
         .par_iter()
         .map(|(c, d)| {
             let m = Cw3Model { cfg: c.clone() };
-            let b = Bounds { max_depth: *d, max_states: 8_000_000, max_secs: if thorough { 2400.0 } else { 120.0 } };
+            let b = Bounds { max_depth: *d, max_states: 3_000_000, max_secs: if thorough { 2400.0 } else { 120.0 } };
             mc::bfs(&m, &b, &known, seed)
         })
         .collect();
